@@ -1,1 +1,2 @@
 import CapyV.Props.C25
+import CapyV.Props.C27
